@@ -8,6 +8,11 @@ ids = [p["id"] for p in props]
 HOOK_COMMITS = ["332865e1b", "bf49db00e", "0b99e4fc0", "68bfb6d5a"]
 
 CHECKS = {
+ "C06": dict(
+   level="exploration", design="§4 C06",
+   technique="runtime monitoring: nested-loop reference oracle (Python, SQL three-valued conditions) over the echoed table contents, conservation monitors on the engine's own answers, hash vs nested-loop differential by configuration",
+   text="For 12 key types x key distributions (unique, duplicates, hot key larger than a batch, all NULL, empty side) 26 join forms (INNER/LEFT/RIGHT/SEMI/anti/mark/USING/LATERAL/cross; no, single, double equality, equality+inequality, inequality-only and expression conditions) run under hash joins on/off, 1/2/4 partitions and batch sizes 1/3/16/2048 with random schedules; each result is compared as a bag of row-id pairs with a Python nested loop, and |LEFT| = |INNER| + unmatched, SEMI + ANTI = left input, |CROSS| = |l||r|, no NULL key ever matched are checked without a model. Sampled inputs.",
+   note="NaN/-0.0 join keys are outside the claimed bound (no documented rule). NOT IN / mark forms are restricted to NULL-free sets because the two-valued IN deviation is a recorded finding (C09)."),
  "C04": dict(
    level="exploration", design="§4 C04",
    technique="runtime monitoring: harness-owned deterministic scheduler (controls which partition pipeline is polled next; yields, spurious polls, duplicate wakes) with logical deadlock/divergence verdicts and result invariance; H1 operator-protocol monitors; offline replay of the production scheduler's H2 event log against its 4-flag state machine; cancellation probes",
